@@ -80,12 +80,23 @@ def field_order(db, ctx):
     ret = peel(gp.hir.get("expr") or {})
     idxs = [lit_int(peel(e)["i"]) for e in ret.get("elems", []) if peel(e).get("k") == "Index"]
     ctx.ob("get_params|tuple-order", idxs == [0, 1, 2], "get_params returns slice[%s] (must be 0,1,2 = left,right,cost)" % idxs, fn=gp)
-    lw = db.one("write", "LexiconWriter")
+    lw = db.view(db.one("write", "LexiconWriter"))
+    # the value written for each word in the word-info pass: offset base + running size of the infos written so far
+    from ..loops import iterations
     base = None
-    for n2, _ in walk(lw.hir):
-        if n2.get("k") == "Let" and n2["pat"].get("name") == "offset_base":
-            base = poly(db, lw, n2["init"])
     want = {("field:offset",): 1, ("?self.entries.len()",): 10, (): 4}
+    for itn in iterations(lw.hir):
+        if not mentions(itn["body"], is_call_to("write_word_info")):
+            continue
+        for c, _ in walk(itn["body"]):
+            if c.get("k") == "MethodCall" and c.get("method") == "to_le_bytes":
+                p_ = poly(db, lw, c["recv"])
+                extra = {t_: c_ for t_, c_ in p_.items() if t_ not in want}
+                # exactly one further term: the running offset (a local accumulator) with coefficient 1
+                if len(extra) == 1 and list(extra.values()) == [1] and len(list(extra)[0]) == 1:
+                    base = {t_: c_ for t_, c_ in p_.items() if t_ in want}
+                else:
+                    base = p_
     ctx.ob("LexiconWriter::write|offset-base", base == want, "word-info offset base = %s (must be offset + (6+4)*n + 4)" % base, fn=lw)
     # grammar
     wpt = db.one("write_pos_table", "LexiconReader")
@@ -107,7 +118,7 @@ def field_order(db, ctx):
     for c, _ in walk(wt.hir):
         if c.get("k") == "MethodCall" and c.get("method") == "write_all":
             a = peel(c["args"][0])
-            worder.append(render(a))
+            worder.append(render(a, x=True))
     gpars = db.one("grammar_parser", None)
     gorder = [x["path"].split("::")[-1] for x, _ in walk(gpars.hir) if x.get("k") == "Path" and (x.get("path") or "").split("::")[-1] in ("pos_list_parser", "le_i16", "le_u16", "le_i32")]
     ok = len(worder) == 3 and "num_left" in worder[0] and "num_right" in worder[1] and "matrix" in worder[2] and gorder == ["pos_list_parser", "le_i16", "le_i16"]
@@ -327,3 +338,74 @@ def elide_symmetry(db, ctx):
         if len(s) > 3 and s[3] == "write_empty_if_equal":
             ctx.ob("writer-elides-against-headword|%s" % s[2], "headword()" in s[4], "writer elides `%s` when equal to `%s` (the loader substitutes the stored surface = headword)" % (s[2], s[4]), fn=wf)
     ctx.floor(5)
+
+
+@rule("C05.split-key", "inline split references are resolved by (surface, POS, reading-or-None) with the reading elided exactly when it equals the "
+                       "SURFACE (parse_split: none_if_equal(surface, reading)); every resolver index must build its key the same way from the entry's "
+                       "full surface and full reading — a key elided by any other rule resolves a reference to a different entry, or not at all")
+def split_key(db, ctx):
+    from ..db import deref_all
+    from ..guards import eval3, cmp_atom
+    ps = db.one("parse_split", "LexiconReader")
+    ref_ok = any(is_call(c) and path_ends(callee(c) or "", "none_if_equal") and local_name(call_args(c)[0]) == "surface" for c, _ in walk(ps.hir))
+    ctx.ob("parse_split|reference-key", ref_ok, "parse_split elides the reference's reading with none_if_equal(surface, reading): %s" % ref_ok, fn=ps)
+    for owner in ("RawDictResolver", "BinDictResolver"):
+        f = db.one("new", owner)
+        K = None
+        for c, _ in walk(f.hir):
+            if c.get("k") == "MethodCall" and c.get("method") == "push" and c["args"] and peel(c["args"][0]).get("k") == "Tup" and len(peel(c["args"][0])["elems"]) == 3:
+                K = peel(c["args"][0])["elems"][1]
+        if K is None:
+            raise AnchorMissing("%s::new: index entry (pos, reading key, word id)" % owner)
+        d = deref_all(K)
+
+        def role(e):
+            """'surface' / 'reading' for an expression that is the entry's full surface / full reading"""
+            for o in origins(db, f, e, depth=0):
+                if o[0] == "call" and path_ends(o[1] or "", ("RawLexiconEntry::surface",)):
+                    return "surface"
+                if o[0] == "call" and path_ends(o[1] or "", ("RawLexiconEntry::reading",)):
+                    return "reading"
+                if o[0] == "field" and o[1].endswith("WordInfoData") and o[2] == "surface":
+                    return "surface"
+                if o[0] == "field" and o[1].endswith("WordInfoData") and o[2] == "reading_form":
+                    return "reading"
+            return None
+
+        def kind(b):
+            b = peel(b)
+            while isinstance(b, dict) and b.get("k") == "Block" and not b.get("stmts") and "expr" in b:
+                b = peel(b["expr"])
+            if b.get("k") == "Path" and path_ends(b.get("path"), ("Option::None", "None")):
+                return "none"
+            if b.get("k") == "Call" and path_ends(b.get("callee"), ("Option::Some", "Some")) and role(b["args"][0]) == "reading":
+                return "some(reading)"
+            return "other"
+        res = {}
+        if isinstance(d, dict) and d.get("k") == "If" and "else" in d:
+            for eq in (True, False):
+                def ev(atom, eq=eq):
+                    c = cmp_atom(atom)
+                    if c and c[0] in ("Eq", "Ne") and {role(c[1]), role(c[2])} == {"surface", "reading"}:
+                        return eq if c[0] == "Eq" else (not eq)
+                    a = peel(atom)
+                    if a.get("k") == "MethodCall" and a.get("method") == "is_empty" and role(a["recv"]) == "reading":
+                        return False
+                    return None
+                v = eval3(d["cond"], ev)
+                res[eq] = None if v is None else kind(d["then"] if v else d["else"])
+        elif isinstance(d, dict) and is_call(d) and path_ends(callee(d) or "", "none_if_equal") and [role(a) for a in call_args(d)] == ["surface", "reading"]:
+            res = {True: "none", False: "some(reading)"}
+        ok = res == {True: "none", False: "some(reading)"}
+        ctx.ob("%s::new|index-key" % owner, ok,
+               "%s::new keys its index with `%s`: value when reading == surface / != surface = %s (must be None / Some(reading), both taken from the "
+               "entry's full surface and full reading)" % (owner, render(d)[:90], res or "not a surface/reading comparison"), fn=f)
+    ctx.floor(3)
+
+
+@rule("C05.skip-width", "what the loader skips for a field it was not asked for is exactly what the compiler wrote for it: same count prefix, same item "
+                        "width, byte count computed wide enough (re-evaluation of C11.skip-width — loading with a field subset is part of the round trip)")
+def skip_width(db, ctx):
+    from . import C11
+    C11.skip_width(db, ctx)
+    ctx.floor(4)
